@@ -526,6 +526,25 @@ impl Pool {
             .expect("clock failure")
             .as_secs();
 
+        /* Never move the end of a lease this client already has for this address earlier: an
+         * offer it does not take up, or a renewal it asks for early, must not undercut what it
+         * has been told (it is still bounded by the maximum in force now).
+         */
+        let recorded = self
+            .conn
+            .query_row(
+                "SELECT expiry FROM leases WHERE address = ?1 AND clientid = ?2",
+                rusqlite::params![lease.ip.to_string(), clientid],
+                |row| Ok(Some(row.get::<usize, u32>(0)?)),
+            )
+            .or_else(map_no_row_to_none)?;
+        let remaining =
+            std::time::Duration::from_secs(u64::from(recorded.unwrap_or(0)).saturating_sub(ts));
+        let lease = Lease {
+            expire: std::cmp::min(std::cmp::max(lease.expire, remaining), max_expire_time),
+            ..lease
+        };
+
         self.conn
             .execute(
                 "INSERT OR REPLACE
